@@ -1,4 +1,116 @@
-import HioModel.Store.Queue
+import HioModel.Store.QLemmas
+/-!
+# C23 — durable queues and sets behave as FIFO models and survive reopen
+
+Property theorems only.  Model: `HioModel/Store/Queue.lean` (Durq, Dusq, Hold.inject/sync) over the lmdb /
+IoSuber / IoSetSuber model of C24 (`HioModel/Store/Model.lean`), faithful to the `fix/store` tree (F37 repaired).
+
+A history is any list of push / pull(emptive) / extend|update / clear / remove / count / REOPEN steps; `reopen`
+(close the store, open it again, inject a fresh queue object at the key, which syncs) may occur between ANY two
+operations.  `hrun` reports after every step: the result, the in-memory content, the durable content at the key.
+`specHRun` is the FIFO queue (Durq) / insertion-ordered set with FIFO pull (Dusq) whose durable column is, by
+definition, the content itself, and for which `reopen` is the identity.
+
+FULL STATEMENT: for every history, `hrun … = specHRun …`.
+* Durq: proved for every `cls` (no guard) — `durq_refines_fifo`.
+* Dusq: FALSE when two values are `==` but serialise differently (`dusq_mirror_fails_without_guard`, DESIGN F38,
+  known finding C23-K1); proved under `∀ a b, cls a = cls b → a = b` (`==` coincides with equality of
+  serialisations) — `dusq_refines_oset_partial`.
+Both are for a store whose other keys never extend `key ++ '.'` (the guard of C24; `QInv` packages: store
+well-formed over a sep-prefix-free key set, durable copy at the key = in-memory content).
+-/
 namespace Hio.Store
-theorem c23_placeholder : True := trivial
+
+section
+variable {α : Type} [DecidableEq α] (cls : Bytes → α)
+
+/-- Durq = FIFO queue, durable copy = content, reopen = identity; every history, every reopen point, any `==`. -/
+theorem durq_refines_fifo (K : Bytes → Prop) (hK : SepFree K) (k : Bytes) (hk : K k) (hvk : validKey (suffix k 0) = true)
+    (os : List HOp) (n : Nat) (db : Db) (q : Q) (hq : QInv K k .durq n db q.mem) (hfit : n + htotal os ≤ 16 ^ W) :
+    hrun cls .durq k db q os = specHRun cls .durq q.mem os :=
+  hrun_refines cls (fun h => by cases h) hK hk hvk os n db q hq hfit
+
+/-- Dusq = insertion-ordered set with FIFO pull (partial: `==` agrees with serialisation equality). -/
+theorem dusq_refines_oset_partial (hinj : ∀ a b, cls a = cls b → a = b)
+    (K : Bytes → Prop) (hK : SepFree K) (k : Bytes) (hk : K k) (hvk : validKey (suffix k 0) = true)
+    (os : List HOp) (n : Nat) (db : Db) (q : Q) (hq : QInv K k .dusq n db q.mem) (hfit : n + htotal os ≤ 16 ^ W) :
+    hrun cls .dusq k db q os = specHRun cls .dusq q.mem os :=
+  hrun_refines cls (fun _ => hinj) hK hk hvk os n db q hq hfit
+
+/-- DURABLE MIRROR: after every operation of every history the durable content at the key is the in-memory
+content, in the same order (Durq: any `cls`; Dusq: under the guard). -/
+theorem durable_mirror (kind : QKind) (hinj : kind = .dusq → ∀ a b, cls a = cls b → a = b)
+    (K : Bytes → Prop) (hK : SepFree K) (k : Bytes) (hk : K k) (hvk : validKey (suffix k 0) = true)
+    (os : List HOp) (n : Nat) (db : Db) (q : Q) (hq : QInv K k kind n db q.mem) (hfit : n + htotal os ≤ 16 ^ W) :
+    ∀ x ∈ hrun cls kind k db q os, x.2.2 = .ok x.2.1 := by
+  rw [hrun_refines cls hinj hK hk hvk os n db q hq hfit]
+  exact specHRun_mirror cls kind os q.mem
+
+/-- REOPEN RESTORES: after ANY history (i.e. at any point between operations) closing, reopening and re-injecting
+a fresh queue object yields exactly the content held before, and the durable copy still equals it. -/
+theorem reopen_restores (kind : QKind) (hinj : kind = .dusq → ∀ a b, cls a = cls b → a = b)
+    (K : Bytes → Prop) (hK : SepFree K) (k : Bytes) (hk : K k) (hvk : validKey (suffix k 0) = true)
+    (os : List HOp) (n : Nat) (db : Db) (q : Q) (hq : QInv K k kind n db q.mem) (hfit : n + htotal os ≤ 16 ^ W) :
+    ∃ db' q', hstep cls kind k (hfinal cls kind k db q os).1 (hfinal cls kind k db q os).2 .reopen = (db', q', .bool true) ∧
+      q'.mem = (hfinal cls kind k db q os).2.mem ∧ durable db' k = .ok (hfinal cls kind k db q os).2.mem := by
+  have hf := hfinal_inv cls hinj hK hk hvk os n db q hq hfit
+  obtain ⟨db', q', h1, h2, h3⟩ := hstep_refines cls hinj hK hk hvk hf .reopen (by simp [hweight]; omega)
+  refine ⟨db', q', h1, h2, ?_⟩
+  rw [durable, getIoVals_spec h3.rel.inv (h3.rel.noChild hK hk), h3.mirror, h2]; rfl
+
+/-- no `HierError` ("Mismatch between cache and durable") ever escapes, and `remove` never raises (F37 repaired) -/
+theorem no_mismatch_error (kind : QKind) (hinj : kind = .dusq → ∀ a b, cls a = cls b → a = b)
+    (K : Bytes → Prop) (hK : SepFree K) (k : Bytes) (hk : K k) (hvk : validKey (suffix k 0) = true)
+    (os : List HOp) (n : Nat) (db : Db) (q : Q) (hq : QInv K k kind n db q.mem) (hfit : n + htotal os ≤ 16 ^ W) :
+    ∀ x ∈ hrun cls kind k db q os, x.1 ≠ .raise .hierError := by
+  rw [hrun_refines cls hinj hK hk hvk os n db q hq hfit]
+  exact specHRun_no_hier cls kind os q.mem
+
+end
+
+/-- the ordered-set content never holds a value twice (so "set" is meant) -/
+theorem dusq_content_nodup (l : List Bytes) (h : l.Nodup) (o : HOp) : (specQ (fun b => b) .dusq l o).1.Nodup := by
+  cases o with
+  | reopen => exact h
+  | op o =>
+    cases o with
+    | push v => exact addOne_nodup v h
+    | pull e => cases l with
+      | nil => exact List.nodup_nil
+      | cons a t => exact (List.nodup_cons.mp h).2
+    | extend vs => exact addAll_nodup vs h
+    | clear => exact List.nodup_nil
+    | remove v => exact h.erase v
+    | count v => exact h
+
+/-! ## the guard is needed: F38 (replayed on the real code in `corpus()`) -/
+
+/-- WITNESS (F38): two different serialisations of `==` values (`cls` constant).  After the second push the
+in-memory set holds one value, the durable copy two; a reopen then restores one value over a durable copy of two;
+two pulls later the second pull raises HierError. -/
+theorem dusq_mirror_fails_without_guard :
+    hrun (fun _ => 0) .dusq [113] [] ⟨[], true⟩ [.op (.push [1]), .op (.push [2]), .reopen, .op (.pull true), .op (.pull true)] =
+      [(.bool true, [[1]], .ok [[1]]),
+       (.bool true, [[1]], .ok [[1], [2]]),
+       (.bool true, [[1]], .ok [[1], [2]]),
+       (.val (some [1]), [], .ok [[2]]),
+       (.raise .hierError, [], .ok [])] := by decide +kernel
+
+/-! ## the hypotheses are satisfiable -/
+
+/-- the empty store with an empty queue at key "q", alone or next to other keys -/
+example : QInv (fun k => k = [113] ∨ k = [114]) [113] .dusq 0 [] [] :=
+  ⟨⟨inv_nil, by simp, (by intro e he; cases he), fun _ => rfl⟩, rfl, fun _ => List.nodup_nil⟩
+
+example : SepFree (fun k => k = [113] ∨ k = [114]) := by
+  intro k k' hk hk' _
+  rcases hk with rfl | rfl <;> rcases hk' with rfl | rfl <;> decide
+
+example : ∀ a b : Bytes, (fun b => b) a = (fun b => b) b → a = b := fun _ _ h => h
+
+/-- and the theorems say something on a concrete history (test, not the claim) -/
+example : hrun (fun b => b) .dusq [113] [] ⟨[], true⟩ [.op (.extend [[1], [2], [1]]), .reopen, .op (.remove [1]), .op (.pull false), .op (.pull false)] =
+    [(.bool true, [[1], [2]], .ok [[1], [2]]), (.bool true, [[1], [2]], .ok [[1], [2]]), (.bool true, [[2]], .ok [[2]]),
+     (.val (some [2]), [], .ok []), (.raise .indexError, [], .ok [])] := by decide +kernel
+
 end Hio.Store
